@@ -982,15 +982,21 @@ class LogixDriver(CIPDriver):
                 )
                 continue
 
-            request = ReadTagRequestPacket(
-                self._sequence,
-                tag_data["plc_tag"],
-                tag_data["elements"],
-                tag_data["tag_info"],
-                request_id,
-                self._cfg["use_instance_ids"],
-            )
-            request.build_message()
+            try:
+                request = ReadTagRequestPacket(
+                    self._sequence,
+                    tag_data["plc_tag"],
+                    tag_data["elements"],
+                    tag_data["tag_info"],
+                    request_id,
+                    self._cfg["use_instance_ids"],
+                )
+                request.build_message()
+            except Exception as err:
+                # e.g. an index that is not a number, an element count that is not a UINT
+                tag_data["error"] = f"Failed to build request - {err!r}"
+                self.__log.exception(f'Failed to build request for {tag_data["request_tag"]} - skipping')
+                continue
             # TODO: this isn't very accurate right now, the message len is not part of the response
             # so we may be fragmenting more than needed
             return_size = (
@@ -1029,16 +1035,21 @@ class LogixDriver(CIPDriver):
         """
 
         if parsed_tag.get("error") is None:
-            request = ReadTagRequestPacket(
-                self._sequence,
-                parsed_tag["plc_tag"],
-                parsed_tag["elements"],
-                parsed_tag["tag_info"],
-                parsed_tag["request_id"],
-                self._cfg["use_instance_ids"],
-            )
+            try:
+                request = ReadTagRequestPacket(
+                    self._sequence,
+                    parsed_tag["plc_tag"],
+                    parsed_tag["elements"],
+                    parsed_tag["tag_info"],
+                    parsed_tag["request_id"],
+                    self._cfg["use_instance_ids"],
+                )
 
-            request.build_message()
+                request.build_message()
+            except Exception as err:
+                parsed_tag["error"] = f"Failed to build request - {err!r}"
+                self.__log.exception(f'Failed to build request for {parsed_tag["request_tag"]} - skipping')
+                return None
             return_size = _tag_return_size(parsed_tag) + len(request.message)
             if return_size > self.connection_size:
                 request = ReadTagFragmentedRequestPacket.from_request(self._sequence, request)
@@ -1132,20 +1143,24 @@ class LogixDriver(CIPDriver):
                 bit = tag_data.get("bit")
                 data_type = tag_data["tag_info"]["data_type_name"]
                 if bit is not None and tag_data["bool_elements"] is None:
-                    if tag_data["plc_tag"] not in bit_writes:
+                    try:
+                        request = bit_writes.get(tag_data["plc_tag"])
+                        new_request = request is None
+                        if new_request:
+                            request = ReadModifyWriteRequestPacket(
+                                self._sequence,
+                                tag_data["plc_tag"],
+                                tag_data["tag_info"],
+                                -1 * (1 + len(bit_writes)),
+                                self._cfg["use_instance_ids"],
+                            )
 
-                        request = ReadModifyWriteRequestPacket(
-                            self._sequence,
-                            tag_data["plc_tag"],
-                            tag_data["tag_info"],
-                            -1 * (1 + len(bit_writes)),
-                            self._cfg["use_instance_ids"],
-                        )
-                        bit_writes[tag_data["plc_tag"]] = request
-                    else:
-                        request = bit_writes[tag_data["plc_tag"]]
-
-                    request.set_bit(bit, tag_data["value"], tag_data["request_id"])
+                        request.set_bit(bit, tag_data["value"], tag_data["request_id"])
+                        if new_request:
+                            bit_writes[tag_data["plc_tag"]] = request
+                    except Exception as err:
+                        tag_data["error"] = f"Failed to build request - {err!r}"
+                        self.__log.exception(f'Failed to build request for {tag_data["request_tag"]} - skipping')
                     continue
 
                 try:
@@ -1154,16 +1169,21 @@ class LogixDriver(CIPDriver):
                     tag_data["error"] = f"Error encoding value - {err!r}"
                     continue
 
-                request = WriteTagRequestPacket(
-                    self._sequence,
-                    tag_data["plc_tag"],
-                    tag_data["elements"],
-                    tag_data["tag_info"],
-                    request_id,
-                    self._cfg["use_instance_ids"],
-                    tag_data["write_value"],
-                )
-                request.build_message()
+                try:
+                    request = WriteTagRequestPacket(
+                        self._sequence,
+                        tag_data["plc_tag"],
+                        tag_data["elements"],
+                        tag_data["tag_info"],
+                        request_id,
+                        self._cfg["use_instance_ids"],
+                        tag_data["write_value"],
+                    )
+                    request.build_message()
+                except Exception as err:
+                    tag_data["error"] = f"Failed to build request - {err!r}"
+                    self.__log.exception(f'Failed to build request for {tag_data["request_tag"]} - skipping')
+                    continue
 
                 req_size = len(request.message)
                 if req_size + MULTISERVICE_READ_OVERHEAD > self.connection_size:
@@ -1234,7 +1254,7 @@ class LogixDriver(CIPDriver):
                     request = WriteTagFragmentedRequestPacket.from_request(self._sequence, request)
 
             return request
-        except RequestError as err:
+        except Exception as err:
             parsed_tag["error"] = f"Invalid Tag Request - {err!r}"
             self.__log.exception(f'Failed to build request for {parsed_tag["plc_tag"]} - skipping')
             return None
